@@ -8,8 +8,8 @@ import Qryn.Gen.Thresholds
       never computes with them;
     * the series fingerprint (`fingerprintLabels`, property C04) and the byte length of the label document
       (`encodeLabels`, built with `strconv.Quote`) are ABSTRACT functions of the label list (`Env.fp`, `Env.encLen`);
-    * the flush threshold and the per-row size constants are PARAMETERS (`Env`); `Gen.Thresholds` carries the
-      values the source has today;
+    * the flush test (an arbitrary predicate on the byte count; today `> 1 MiB`) and the per-row size constants
+      are PARAMETERS (`Env`); `Gen.Thresholds` carries what the source has today;
     * `onEntries` receives parallel arrays exactly like the Go callback and appends column by column, so a
       caller passing arrays of different lengths yields a non-rectangular request, exactly as in Go;
     * panics are values (`Fault`): `tps[t]` with a type above 2 and `message[i]` past the end of `message`. -/
@@ -181,7 +181,7 @@ def Call.ofEntries (labels : Labels) (es : List Entry) : Call :=
 structure Env where
   fp : Labels → UInt64          -- fingerprintLabels (C04)
   encLen : Labels → Nat         -- len(encodeLabels(labels))
-  flushBytes : Nat              -- 1 MiB
+  flush : Nat → Bool            -- the test on spl.Size + ts.Size that emits the open requests (today: > 1 MiB)
   rowBytes : Nat                -- 26
   seriesBytes : Nat             -- 14
   ctxTtl : Nat                  -- TTL_DAYS of the request context (0 = none)
@@ -218,7 +218,7 @@ def onEntriesPure (env : Env) (st : St) (c : Call) : St × List Chunk :=
   let tps := [0, 1, 2].filter (fun t => c.tp.contains t)
   let dates := (c.ts.map dayOf).eraseDups
   let (ts, cache) := dates.foldl (seriesStep env labels fp ttl tps) (st.ts, st.cache)
-  if spl.size + ts.size > env.flushBytes then
+  if env.flush (spl.size + ts.size) then
     ({ spl := {}, ts := {}, cache := cache }, [⟨spl, ts⟩])
   else ({ spl := spl, ts := ts, cache := cache }, [])
 
@@ -254,6 +254,6 @@ def streamRows (env : Env) (labels : Labels) (es : List Entry) : List Row :=
 
 /-- the environment with today's constants of the source -/
 def Env.ofGen (fp : Labels → UInt64) (encLen : Labels → Nat) (ctxTtl : Nat) : Env :=
-  ⟨fp, encLen, Gen.flushBytes, Gen.rowBytes, Gen.seriesBytes, ctxTtl⟩
+  ⟨fp, encLen, Gen.bytesHit, Gen.rowBytes, Gen.seriesBytes, ctxTtl⟩
 
 end Qryn.Ingest
